@@ -109,7 +109,10 @@ def sim_obligations(chi_sym, make_model, label):
                             ok, msg = False, '%s: row %d, time %s holds %s, expected the solution of %s' % (tag, oi, t, e, nm)
             res.append(('order.outputs', ok, msg))
             pub = mm.outputs()
-            res.append(('outputs.published', len(pub) == len(want_log), '%s: outputs() = %s for logged %s' % (tag, pub, want_log)))
+            # row i of the result is the variable logged in position i; outputs() publishes its name in position i (no output was renamed here),
+            # and a selection made with set_outputs is returned in the requested order
+            res.append(('outputs.published', list(pub) == list(want_log) and (ov is None or list(want_log) == list(ov)),
+                        '%s: outputs() = %s, the rows of the result are %s, the requested selection %s' % (tag, pub, want_log, ov)))
             if sens:
                 req = sim.sensitivities
                 want_req = ['init(%s)' % mm._parameter_names[mm.parameters().index(p_)] if mm.parameters().index(p_) < len(states) else mm._parameter_names[mm.parameters().index(p_)]
